@@ -87,6 +87,10 @@ func (d *decoder) decodeArray(v value, elemType reflect.Type, decodeElem decodeF
 	if n := d.readInt32(); n < 0 || n > 65535 {
 		v.setArray(array{})
 	} else {
+		if int(n) > d.remain {
+			// every element takes at least one byte: the message cannot hold more than this
+			n = int32(d.remain)
+		}
 		a := makeArray(elemType, int(n))
 		for i := 0; i < int(n) && d.remain > 0; i++ {
 			decodeElem(d, a.index(i))
@@ -99,6 +103,9 @@ func (d *decoder) decodeCompactArray(v value, elemType reflect.Type, decodeElem 
 	if n := d.readUnsignedVarInt(); n < 1 || n > 65535 {
 		v.setArray(array{})
 	} else {
+		if int(n-1) > d.remain {
+			n = uint64(d.remain) + 1
+		}
 		a := makeArray(elemType, int(n-1))
 		for i := 0; i < int(n-1) && d.remain > 0; i++ {
 			decodeElem(d, a.index(i))
@@ -173,9 +180,21 @@ func (d *decoder) discard(n int) {
 }
 
 func (d *decoder) read(n int) []byte {
+	// Never allocate more than the message still holds: a length field beyond that is a
+	// short read, not a reason to allocate the declared length.
+	declared := n
+	if n > d.remain {
+		n = d.remain
+	}
+	if n < 0 {
+		n = 0
+	}
 	b := make([]byte, n)
 	n, err := io.ReadFull(d, b)
 	b = b[:n]
+	if err == nil && declared != len(b) {
+		err = io.ErrUnexpectedEOF
+	}
 	d.setError(err)
 	return b
 }
